@@ -259,8 +259,11 @@ def run_one(mid):
         imp = subprocess.run(["/venv/bin/python", "-c", "import betterproto, betterproto.plugin.models, betterproto.grpc.grpclib_client, betterproto.grpc.grpclib_server"], env=env, capture_output=True, text=True)
         if imp.returncode:
             return (mid, "KILLED-BY-IMPORT", meta["function"], meta["what"], "")
-        t = subprocess.run(["/venv/bin/python", "-m", "pytest", "-q", "-p", "no:cacheprovider", "--timeout=300", "--continue-on-collection-errors"],
-                           cwd=tree, env=env, capture_output=True, text=True, timeout=1500)
+        try:
+          t = subprocess.run(["/venv/bin/python", "-m", "pytest", "-q", "-p", "no:cacheprovider", "--timeout=300", "--continue-on-collection-errors"],
+                           cwd=tree, env=env, capture_output=True, text=True, timeout=400)
+        except subprocess.TimeoutExpired:
+            return (mid, "KILLED-BY-TESTS", meta["function"], meta["what"], "test-suite hangs")
         tail = (t.stdout.strip().splitlines() or [""])[-1]
         m = re.search(r"(\d+) passed", tail)
         if not m or int(m.group(1)) != 193:
